@@ -239,3 +239,86 @@ def run_sequences(seqs):
 
     vloop.run(main)
     return out
+
+
+def run_real_socket(scenarios, timeout=0.6):
+    """a few sequences over a REAL loopback socket and the real clock: the only place where the
+    transport's own timeout configuration is exercised (a scripted httpx transport never times out).
+    scenarios: list of lists of "ok" | "stall" | "lateAnswer".  Returns traces in run_sequences'
+    format (a stalled POST is the behaviour exc=timeout)."""
+    import asyncio
+    from chuk_mcp.transports.http.http_client import http_client
+    from chuk_mcp.transports.http.parameters import StreamableHTTPParameters
+    from chuk_mcp.protocol.messages.json_rpc_message import JSONRPCRequest
+
+    BEH_OK = {"status": 200, "ctype": "json", "body": "resp", "enc": "std", "exc": "none", "sess": "absent"}
+    BEH_TO = {"status": 200, "ctype": "absent", "body": "empty", "enc": "std", "exc": "timeout", "sess": "absent"}
+    out = []
+
+    async def one(plan):
+        state = {"i": 0}
+        stalled = []
+
+        async def serve(reader, writer):
+            try:
+                head = await reader.readuntil(b"\r\n\r\n")
+                n = 0
+                for line in head.split(b"\r\n"):
+                    if line.lower().startswith(b"content-length:"):
+                        n = int(line.split(b":")[1])
+                body = await reader.readexactly(n) if n else b""
+                req = json.loads(body.decode() or "null")
+                kind = plan[min(state["i"], len(plan)) - 1] if state["i"] else "ok"
+                if kind == "stall":
+                    stalled.append(writer)
+                    await asyncio.sleep(30)
+                    return
+                if kind == "lateAnswer":
+                    await asyncio.sleep(timeout * 3)
+                payload = json.dumps({"jsonrpc": "2.0", "id": req.get("id"), "result": {"marker": state["i"] * 10, "text": TEXT, "nil": None}}).encode()
+                writer.write(b"HTTP/1.1 200 OK\r\nContent-Type: application/json\r\nContent-Length: %d\r\nConnection: close\r\n\r\n" % len(payload) + payload)
+                await writer.drain()
+            except Exception:
+                pass
+            finally:
+                try:
+                    writer.close()
+                except Exception:
+                    pass
+
+        server = await asyncio.start_server(serve, "127.0.0.1", 0)
+        port = server.sockets[0].getsockname()[1]
+        evs = []
+        try:
+            async with http_client(StreamableHTTPParameters(url="http://127.0.0.1:%d/mcp" % port, timeout=timeout)) as (rs, ws):
+                for i, kind in enumerate(plan, 1):
+                    state["i"] = i
+                    rid = 1000 + i
+                    await ws.send(JSONRPCRequest(jsonrpc="2.0", id=rid, method="tools/list", params={"cursor": "c%d" % i}))
+                    got = []
+                    # the bound of the statement: the configured timeout, plus slack
+                    t_end = asyncio.get_running_loop().time() + timeout * 2 + 1.5
+                    while asyncio.get_running_loop().time() < t_end:
+                        await asyncio.sleep(0.05)
+                        got.extend(drain(rs))
+                        if any(classify(m, rid, {i * 10})[1] == "own" for m in got):
+                            await asyncio.sleep(0.1)
+                            got.extend(drain(rs))
+                            break
+                    evs.append({"kind": "request", "idc": "int", "beh": BEH_OK if kind == "ok" else BEH_TO, "hdr": "absent",
+                                "items": [classify(m, rid, {i * 10}) for m in got]})
+        finally:
+            server.close()
+            for w in stalled:
+                try:
+                    w.close()
+                except Exception:
+                    pass
+        return evs
+
+    for plan in scenarios:
+        try:
+            out.append(asyncio.run(asyncio.wait_for(one(plan), 60)))
+        except Exception as e:
+            out.append([{"kind": "request", "idc": "int", "beh": BEH_TO, "hdr": "absent", "items": [["junk", "none", "harness:" + type(e).__name__]]}])
+    return out
